@@ -82,6 +82,7 @@ func (w *world) guard(entry string, what string, inputLen int, fn func() error) 
 	runtime.ReadMemStats(&m1)
 	r.Count("evals")
 	r.Count("deliveries:" + entry)
+	r.Fault("hostile-input:" + entry)
 	if pv != nil {
 		r.Fail("panic", entry+":"+panicSite(stack), "%s: hostile input (%s, %d bytes) panics the process: %v\n%s", entry, what, inputLen, pv, trimStack(stack))
 	}
